@@ -6,7 +6,10 @@ Script line:  visit <tree in jvtext> <schedule>
   n-th call is determined by the tree and the answers to the calls before it.
 Observation: "<path> <flags> <parent> <key|index> <depth>" per call, then "ret <r>".
 
-Generator: (1) exhaustive — every tree shape (scalar / array / object nodes) up to N nodes,
+Generator: (0) small scope, complete — every tree of <= 4 nodes over {null, non-null scalar,
+array, object} x every distinguishable callback behaviour (complete decision tree over the six
+code classes, unbounded number of calls); thorough: also 5 nodes x the first 6 answers;
+(1) exhaustive — every tree shape (scalar / array / object nodes) of 5 (thorough: 6) nodes,
 and for each the complete decision tree of callback answers over the six code classes
 (CONTINUE, SKIP, POP, STOP, ERROR, undefined value) for the first L calls; (2) random larger
 trees with random schedules and with single-deviation schedules (one non-CONTINUE answer at
@@ -48,8 +51,10 @@ DOMAIN = "visit"
 LEVEL = "proof"
 TECHNIQUE = ("Coq proof by induction on the tree that the recursive visitor equals a flat-list skip/pop/stop automaton "
              "for every callback (VisitProofs.v) + extracted-model/C differential correspondence + Python reference traversal")
-RULE = ("exhaustive: all tree shapes up to N nodes (N=5 quick, 6 thorough) x the full decision tree of callback answers over "
-        "{CONTINUE,SKIP,POP,STOP,ERROR,undefined} for the first L calls (quick: L=6 up to 4 nodes, 3 for 5; thorough: L=8 up to 4 nodes, 6 for 5, 4 for 6); "
+RULE = ("small-scope, complete: every tree of <= 4 nodes over {null, non-null scalar, array, object} (412 trees) x every distinguishable "
+        "callback behaviour = the complete decision tree over {CONTINUE,SKIP,POP,STOP,ERROR,undefined} with no bound on the calls "
+        "(121 222 cases; thorough adds all 2 880 trees of 5 nodes x the first 6 answers); exhaustive shapes beyond: 5 nodes x first 3 "
+        "answers (thorough: 6 nodes x first 4); "
         "random: seeded trees up to ~80 nodes with random and single-deviation schedules; size families: nesting depth ladder "
         "33..3000 (5000 thorough) with mixed array/object spines and sparse siblings, widths 255..65537 members, bushy trees of "
         "10^4 nodes, each with the plain traversal and with codes at the deepest node / last member / a deep second call.  "
@@ -429,14 +434,73 @@ def _decision_tree(tree, text, maxcalls, salt, out, kind):
 
 def gen_exhaustive(tier):
     out = []
-    plan = {"quick": [(1, 6), (2, 6), (3, 6), (4, 6), (5, 3)],
-            "thorough": [(1, 8), (2, 8), (3, 8), (4, 8), (5, 6), (6, 4)]}[tier]
+    # sizes up to 4 (thorough: 5) are covered completely by gen_small_scope
+    plan = {"quick": [(5, 3)], "thorough": [(6, 4)]}[tier]
     salt = 0
     for n, maxcalls in plan:
         for shape in _shapes(n):
             salt += 1
             tree = _instantiate(shape, [salt, salt])
             _decision_tree(tree, dump(tree), maxcalls, salt, out, "exhaustive-%d" % n)
+    return out
+
+
+# ------------------------------------------------------------------ small scope, complete
+# Every tree of at most 4 nodes over the node alphabet {null, non-null scalar, array, object}
+# (so: null root, null members and elements, empty containers, every nesting and order), and for
+# each tree EVERY behaviour of the callback: the complete decision tree of answers over
+# {CONTINUE, SKIP, POP, STOP, ERROR, one undefined value} with no bound on the number of calls
+# (at most 8 here).  This is itertools.product(codes, repeat=ncalls) modulo the answers that are
+# never asked for (after a STOP/ERROR/undefined answer, or to calls that SKIP/POP left out), i.e.
+# one case per distinguishable schedule.  Thorough: the same for 5 nodes and the first 6 answers.
+_NONNULL = [True, ("i", 1), b"a", ("d", jvtext.dbits(1.5), None), ("u", 1 << 63), False, b"", ("i", -7)]
+
+
+def _shapes2(n, memo={}):
+    """all trees with exactly n nodes over 'n' (null) | 's' (non-null scalar) | ('a', [..]) | ('o', [..])"""
+    if n in memo:
+        return memo[n]
+    out = ["n", "s"] if n == 1 else []
+    for f in _forests2(n - 1):
+        out.append(("a", f))
+        out.append(("o", f))
+    memo[n] = out
+    return out
+
+
+def _forests2(m, memo={}):
+    if m in memo:
+        return memo[m]
+    if m == 0:
+        out = [[]]
+    else:
+        out = [[t] + rest for k in range(1, m + 1) for t, rest in itertools.product(_shapes2(k), _forests2(m - k))]
+    memo[m] = out
+    return out
+
+
+def _instantiate2(shape, ctr):
+    if shape == "n":
+        return None
+    if shape == "s":                  # the five scalar types take turns (one case label each in the switch)
+        ctr[0] += 1
+        return _NONNULL[ctr[0] % len(_NONNULL)]
+    kids = [_instantiate2(x, ctr) for x in shape[1]]
+    if shape[0] == "a":
+        return kids
+    ctr[1] += 1
+    return ("o", [(_KEYS[(ctr[1] + i) % len(_KEYS)], k) for i, k in enumerate(kids)])
+
+
+def gen_small_scope(tier):
+    out = []
+    plan = [(1, 99), (2, 99), (3, 99), (4, 99)] + ([(5, 6)] if tier != "quick" else [])
+    salt = 0
+    for n, maxcalls in plan:
+        for shape in _shapes2(n):
+            salt += 1
+            tree = _instantiate2(shape, [salt, salt])
+            _decision_tree(tree, dump(tree), maxcalls, salt, out, "small-scope")
     return out
 
 
@@ -749,7 +813,7 @@ def gen_keys(rng, tier):
 
 
 def gen(rng, tier):
-    cases = gen_exhaustive(tier) + gen_random(rng, tier) + gen_programs(rng, tier) + gen_sizes(rng, tier)
+    cases = gen_small_scope(tier) + gen_exhaustive(tier) + gen_random(rng, tier) + gen_programs(rng, tier) + gen_sizes(rng, tier)
     # a third of all other cases run with some non-default future_flags / userarg as well: the
     # decision trees, programs and size families are independent of both
     rot = [(ff, ak) for ff in FUTURE_FLAGS for ak in ARG_KINDS]
